@@ -162,12 +162,26 @@ def r4_2(prog, rep):
         except AnalysisError as e:
             rep.defer(f"R4.2: {q}: {e}")
             continue
+        from .. import symexec as SX
+        # a contrast kept in a local and stored once (`c = full if spans_intercept else reduced; self.contrast_matrix = c`) is the
+        # two conditional stores; a value that reads the local reads the attribute
+        cm_texts = [x[1] for x in st if x[0] == "self.contrast_matrix"]
+        st2 = []
+        for x in st:
+            if x[0] == "self.contrast_matrix" and isinstance(x[2], SX.Ite):
+                st2.append((x[0], SX.render(x[2].a), x[2].a, tuple(x[3]) + ((x[2].cond, True),), x[4]))
+                st2.append((x[0], SX.render(x[2].b), x[2].b, tuple(x[3]) + ((x[2].cond, False),), x[4]))
+            else:
+                st2.append(x)
+        st = st2
         lv = [x for x in st if x[0] == "self.levels"]
         ok = len(lv) == 1 and lv[0][3] == () and lv[0][1].endswith(".categories.tolist()")
         X = lv[0][1][: -len(".categories.tolist()")] if ok else None
         obl(rep, f, lv[0][4] if lv else f.node, "R4.2", ok, "self.levels are the categories of the categorical that is coded", lv[0][1][:80] if lv else "")
         val = [x for x in st if x[0] == "self.value"]
         leaves = [l_ for x in val for l_ in _leaves(x[2])]
+        for t_ in sorted(cm_texts, key=len, reverse=True):
+            leaves = [l_.replace(t_, "self.contrast_matrix") if len(t_) > 20 else l_ for l_ in leaves]
         want = {f"self.contrast_matrix.matrix[{X}.codes]"}
         if q.endswith("Variable.eval_categoric"):
             # y[level]: any spelling of the 0/1 indicator of `<the categorical> == self.reference`
